@@ -433,6 +433,15 @@ def rule_l1(ctx, F):
                                             ("…and only if its value ended at or before the reference", [((">= (*", ").value_range.end)"), True)])], accept_desc="accepting a definition")
     if not okc:
         ctx.bad("L1", "next:definition-filter", "the closure that filters local definitions (name and value_range.end) was not found")
+    # "no definition here" and "a definition that has no highlight" are different answers: the innermost definition of the
+    # name ends the search even if it is not highlighted (the reference is then not highlighted as a local either), so the
+    # look-up closure answers Option<Option<Highlight>> — with a flat Option the search would run on to a shadowed definition
+    nested = [f for f in F.fn_list if f.name.startswith(fn.name + "::{closure") and str(f.ret or "").replace("std::option::", "").startswith("Option<Option<")]
+    if nested:
+        ctx.ok("L3", "next:unhighlighted-definition-ends-the-search", "the definition look-up yields Option<Option<Highlight>> (%s): finding a definition and that definition having a highlight are kept apart" % nested[0].name.split("::")[-1])
+    else:
+        ctx.bad("L3", "next:unhighlighted-definition-ends-the-search", "no closure of HighlightIter::next answers Option<Option<Highlight>> any more: a matching definition without a highlight is indistinguishable from "
+                "no definition, the search continues outwards, and the reference takes the colour of a shadowed definition of the same name")
     brk = None
     for b in fn.blocks.values():
         c = fn.cond(b.id)
